@@ -162,6 +162,12 @@ def _value_bound_by(st, name):
                                 return ast.Subscript(value=st.value, slice=sl, ctx=ast.Load())
     if isinstance(st, ast.AnnAssign) and st.value is not None and isinstance(st.target, ast.Name) and st.target.id == name:
         return st.value
+    if isinstance(st, ast.AugAssign) and isinstance(st.target, ast.Name) and st.target.id == name:
+        # `name op= v`: the old value (read at this statement: the synthetic operand hangs off it) combined with v
+        left = ast.Name(id=name, ctx=ast.Load())
+        left._p = st
+        left.lineno, left.col_offset = st.lineno, st.col_offset
+        return ast.BinOp(left=left, op=st.op, right=st.value)
     if isinstance(st, (ast.Assign, ast.AnnAssign, ast.Expr, ast.Return)):
         ws = [n for n in ast.walk(st) if isinstance(n, ast.NamedExpr) and isinstance(n.target, ast.Name) and n.target.id == name]
         if len(ws) == 1:
@@ -352,7 +358,7 @@ def _rebound_between(fn, name, site, use) -> bool:
     return False
 
 
-def expand(fn, e, depth: int = 6, keep=(), use=None, allow_calls=False):
+def expand(fn, e, depth: int = 12, keep=(), use=None, allow_calls=False):
     """Copy of e with locals replaced by the expressions that define them (flow-sensitively, see reaching_definition). Every name is
     read at its own site: in `x = a + 1; a = 5; f(x)` the `a` of `a + 1` is the old one, so `x` is only replaced when the names
     left free in its definition cannot have been rebound between the definition and the use (otherwise `x` stays).
@@ -403,7 +409,7 @@ def expand(fn, e, depth: int = 6, keep=(), use=None, allow_calls=False):
         return clone(e)
 
 
-def trace(fn, e, depth: int = 6, use=None, keep=()):
+def trace(fn, e, depth: int = 12, use=None, keep=()):
     """Backward value slice of e as one expression (definitions with calls included; `with E as v` makes v == E).
     Names in `keep` stay as they are and are treated as opaque symbols (not checked for rebinding)."""
     return expand(fn, e, depth=depth, use=use, allow_calls=True, keep=keep)
@@ -467,6 +473,84 @@ def _bool(e, neg=False):
             return _bool(ast.BoolOp(op=ast.Or(), values=[t, o]), neg)
     c = cx(e)
     return ("not", c) if neg else c
+
+
+def _falsy_const(x):
+    return isinstance(x, ast.Constant) and (x.value is None or x.value is False or x.value == 0 or x.value == "")
+
+
+def _truthy_const(x):
+    return isinstance(x, ast.Constant) and (x.value is True or (isinstance(x.value, (int, str)) and not isinstance(x.value, bool) and bool(x.value)))
+
+
+def truth_nnf(e, neg=False):
+    """AST of the truthiness of e (negated when neg) in negation normal form: negations pushed through and/or/not and through
+    conditional expressions (`X if t else None` is true iff `t and X`; in general `(t and a) or (not t and b)`), constants folded."""
+    T, F = ast.Constant(value=True), ast.Constant(value=False)
+
+    def mk(op, vals):
+        flat = []
+        for v in vals:
+            if isinstance(v, ast.BoolOp) and isinstance(v.op, op):
+                flat.extend(v.values)
+            else:
+                flat.append(v)
+        absorbing = isinstance(op(), ast.Or)
+        out = []
+        for v in flat:
+            if isinstance(v, ast.Constant) and isinstance(v.value, bool):
+                if v.value == absorbing:
+                    return T if absorbing else F
+                continue
+            if norm(v) not in {norm(o) for o in out}:
+                out.append(v)
+        if not out:
+            return F if absorbing else T
+        return out[0] if len(out) == 1 else ast.BoolOp(op=op(), values=out)
+    if isinstance(e, ast.UnaryOp) and isinstance(e.op, ast.Not):
+        return truth_nnf(e.operand, not neg)
+    if isinstance(e, ast.BoolOp):
+        is_and = isinstance(e.op, ast.And) != neg
+        return mk(ast.And if is_and else ast.Or, [truth_nnf(v, neg) for v in e.values])
+    if isinstance(e, ast.IfExp):
+        pos = mk(ast.Or, [mk(ast.And, [truth_nnf(e.test), truth_nnf(e.body)]), mk(ast.And, [truth_nnf(e.test, True), truth_nnf(e.orelse)])])
+        if not neg:
+            return pos
+        return mk(ast.And, [mk(ast.Or, [truth_nnf(e.test, True), truth_nnf(e.body, True)]), mk(ast.Or, [truth_nnf(e.test), truth_nnf(e.orelse, True)])])
+    if _falsy_const(e):
+        return T if neg else F
+    if _truthy_const(e):
+        return F if neg else T
+    if neg and isinstance(e, ast.Compare) and len(e.ops) == 1:
+        return ast.Compare(left=e.left, ops=[_NEG[type(e.ops[0])]()], comparators=e.comparators)
+    return ast.UnaryOp(op=ast.Not(), operand=e) if neg else e
+
+
+def disjuncts(e):
+    """Top-level disjuncts of the truthiness of e (truth_nnf, with `x or (not x and y)` absorbed to `x or y`)."""
+    t = truth_nnf(e)
+    ds = list(t.values) if isinstance(t, ast.BoolOp) and isinstance(t.op, ast.Or) else [t]
+    plain = {norm(d) for d in ds if not (isinstance(d, ast.BoolOp) and isinstance(d.op, ast.And))}
+    out = []
+    for d in ds:
+        if isinstance(d, ast.BoolOp) and isinstance(d.op, ast.And):
+            rest = [c for c in d.values if norm(truth_nnf(c, True)) not in plain]      # `p or (not p and q)` == `p or q`
+            if len(rest) < len(d.values):
+                if not rest:
+                    continue
+                d = rest[0] if len(rest) == 1 else ast.BoolOp(op=ast.And(), values=rest)
+                if isinstance(d, ast.BoolOp) and isinstance(d.op, ast.Or):
+                    out.extend(d.values)
+                    continue
+        if norm(d) not in {norm(o) for o in out}:
+            out.append(d)
+    # flatten ors produced by absorption
+    flat = []
+    for d in out:
+        for x in (d.values if isinstance(d, ast.BoolOp) and isinstance(d.op, ast.Or) else [d]):
+            if norm(x) not in {norm(o) for o in flat}:
+                flat.append(x)
+    return flat
 
 
 def _stringy(e) -> bool:
